@@ -73,12 +73,26 @@ pub fn run(case: &Value) -> Value {
             let mut so_w = Short::new(&case["max"]);
             let mut se_w = Short::new(&case["max"]);
             let start = Instant::now();
-            let res = Command::new(exe)
-                .arg("c19_child")
-                .env("VERIF_C19_SCRIPT", case["script"].to_string())
-                .output_and_write_streams(&mut so_w, &mut se_w);
+            let mut cmd = Command::new(exe);
+            cmd.arg("c19_child").env("VERIF_C19_SCRIPT", case["script"].to_string());
+            // either entry point: output_and_write_streams (captures as well), or spawn_and_write_streams + wait, where
+            // the supplied writers are the only destination of the child's output
+            let res = if case["via"] == "spawn" {
+                cmd.spawn_and_write_streams(&mut so_w, &mut se_w)
+                    .and_then(|mut child| child.wait())
+                    .map(|status| std::process::Output { status, stdout: vec![], stderr: vec![] })
+            } else {
+                cmd.output_and_write_streams(&mut so_w, &mut se_w)
+            };
             let elapsed = start.elapsed();
             let (so, se) = (so_w.inner, se_w.inner);
+            let res = res.map(|mut o| {
+                if case["via"] == "spawn" {
+                    o.stdout.clone_from(&so);
+                    o.stderr.clone_from(&se);
+                }
+                o
+            });
             match res {
                 Ok(o) => json!({"id": case["id"], "ok": true, "code": o.status.code(), "stdout_eq": o.stdout == so, "stderr_eq": o.stderr == se,
                                "so_len": so.len(), "se_len": se.len(), "so_sum": checksum(&so), "se_sum": checksum(&se),
